@@ -19,12 +19,14 @@ import (
 // c13Sigma is the full alphabet; the quick tier uses c13Quick (indices into it), which drops the
 // message numbers 3, -1 and 4294967297 and half of the TOP variants.
 var c13Sigma = func() []string {
-	s := []string{"USER u", "USER", "PASS p", "PASS", "APOP u d", "APOP u", "STAT", "STAT x", "LIST", "UIDL", "RSET", "NOOP", "QUIT", "CAPA", "XY", ""}
+	s := []string{"USER u", "USER", "PASS p", "PASS", "APOP u d", "APOP u", "STAT", "STAT x", "LIST", "UIDL", "RSET", "NOOP", "QUIT", "CAPA", "XY", "", " ", "\t "}
 	for _, n := range []string{"1", "2", "0", "99", "x", "3", "-1", "4294967297"} {
 		s = append(s, "LIST "+n, "UIDL "+n, "DELE "+n, "RETR "+n)
 	}
 	s = append(s, "TOP 1 0", "TOP 1 1", "TOP 2 1", "TOP 1 -1", "TOP 1 x", "TOP 0 1", "TOP 99 1", "TOP x 1")
 	s = append(s, "!deliver", "!extdel 1", "!extdel 2")
+	// the client hangs up in the middle of a multi-line response (after its status line)
+	s = append(s, "RETR 2 !hangup", "LIST !hangup")
 	return s
 }()
 
@@ -217,6 +219,18 @@ func c13Exec(c *fw.Ctx, be string, nmsgs int, seq []int, checkAll bool) (key str
 					}
 				}
 				continue
+			}
+			if cl, ok := strings.CutSuffix(line, " !hangup"); ok {
+				log = append(log, "C: "+cl+"   [and hangs up after the first line of the response]")
+				if err := k.Send(cl); err == nil {
+					l, _ := k.ReadLine()
+					log = append(log, "S: "+strings.TrimSpace(l))
+				}
+				if inTxn && last {
+					nontrivial = true
+				}
+				ended = true // without QUIT: nothing may be removed, the session must end
+				break
 			}
 			words := strings.Split(line, " ")
 			cmd := strings.ToUpper(words[0])
@@ -537,8 +551,8 @@ func c13Explore(c *fw.Ctx, be string, nm int, loggedIn bool) {
 			alpha = alpha[:0:0]
 			for i, l := range c13Sigma {
 				switch l {
-				case "STAT", "LIST", "UIDL", "RSET", "NOOP", "QUIT", "XY", "DELE 1", "DELE 2", "DELE 99", "RETR 1", "RETR 2",
-					"LIST 1", "UIDL 2", "TOP 1 1", "!deliver", "!extdel 1", "!extdel 2":
+				case "STAT", "LIST", "UIDL", "RSET", "NOOP", "QUIT", "XY", " ", "DELE 1", "DELE 2", "DELE 99", "RETR 1", "RETR 2",
+					"LIST 1", "UIDL 2", "TOP 1 1", "!deliver", "!extdel 1", "!extdel 2", "RETR 2 !hangup", "LIST !hangup":
 					alpha = append(alpha, i)
 				}
 			}
